@@ -696,12 +696,22 @@ def strip_sites(t):
     return tuple(strip_sites(x) if isinstance(x, tuple) else x for x in t)
 
 
+TAGS = {
+    "const", "param", "glob", "attr", "call", "sub", "slice", "add", "binop", "unop", "cmp", "bool", "tuple", "list",
+    "set", "dict", "fstr", "fmt", "ifexp", "await", "yield", "star", "comp", "cvar", "lparam", "lambda", "closure",
+    "iter", "enter", "caught", "phi", "loopvar", "unknown",
+}  # fmt: skip
+
+
 def subterms(t):
-    if not isinstance(t, tuple):
+    """All proper sub-terms (tagged tuples); argument / keyword containers are traversed, not yielded."""
+    if not isinstance(t, tuple) or not t:
         return
-    yield t
-    if t and t[0] == "const":
-        return
+    is_term = isinstance(t[0], str) and t[0] in TAGS and len(t) >= 2
+    if is_term:
+        yield t
+        if t[0] == "const":
+            return
     for x in t:
         if isinstance(x, tuple):
             yield from subterms(x)
